@@ -70,7 +70,7 @@ def showOut : Out → String
   | .attest to mp => s!"A{to}:{mp}"
   | .requestMissing to k => s!"R{to}:{k}"
   | .missingResponse to ts => s!"S{to}:[{",".intercalate (ts.map toString)}]"
-  | .disclose to md _ n => s!"P{to}:[{md}]:{n}"
+  | .disclose to md cands n => s!"P{to}:[{md}]:{n}:{if n == cands.length then "all" else "sub"}"
 
 /-- after a restart the own chain may fork (not mirrored): the token count of a Disclose is not predicted -/
 def showOutNoCount : Out → String
@@ -87,7 +87,7 @@ def guardName : Guard → String
   | .fields _ => "fields-missing"
   | .registered => "hash-unregistered"
   | .subjectKey => "other-subject"
-  | .fresh _ => "expired"
+  | .fresh _ _ => "expired"
   | .nameMatches => "name-differs"
   | .fixedMetadata => "metadata-differs"
   | .notAttestedDb => "attested-db"
@@ -185,11 +185,11 @@ def step (st : St) (toks : List String) : St × String :=
         (insertDict v s' st, "ok")
       | none => bad
     | _, _, _ => bad
-  | ["Z", v, chain] =>
+  | ["Z", v, chain, keep] =>
     match v.toNat?, Proto.natList? chain with
     | some v, some chain =>
       match getNode st v with
-      | some s => (insertDict v (restartOf s chain) st, "ok")
+      | some s => (insertDict v (restartOf s chain (keep == "1")) st, "ok")
       | none => bad
     | _, _ => bad
   | ["X", v] =>
